@@ -40,6 +40,7 @@ EXHAUSTIVE_NOTE = {"quick": "all op sequences of length 1..4 over 9 ops x thresh
 MIN_NONTRIVIAL_FRACTION = 0.1
 RULE += " Added after the seeded rounds: " + '40% of the generated histories start by tripping the breaker and waiting out the timeout (probes are common); stub exceptions are drawn from 16 exception types.'
 RULE += ' 1/30 of the histories contain a `bulk` of 1001+ requests with fresh prompts; clock gaps range from 0.5 s to two days.'
+RULE += ' Bookkeeping calls between requests (clear_cache, get_statistics, get_circuit_breaker_stats).'
 
 PAIRS = {"raise_t": ("RAISE_TIMEOUT", "PERMIT"), "raise_v": ("EXECUTE", "RAISE_VALUE"), "raise_o": ("RAISE_OS", "PERMIT"), "ok": ("EXECUTE", "PERMIT"), "block": ("EXECUTE", "BLOCK"), "eblock": ("BLOCK", "PERMIT"), "fail": ("FAILURE", "PERMIT"),
          "raise_e": ("RAISE", "PERMIT"), "raise_a": ("EXECUTE", "RAISE"), "odd": ("UNKNOWN", "PERMIT"), "failblock": ("FAILURE", "BLOCK")}
@@ -51,6 +52,7 @@ _op = st.one_of(
     st.tuples(st.just("adv"), st.sampled_from([1, 59, 60, 61, 61, 61])),
     st.tuples(st.just("adv"), st.sampled_from([61, 120, 3600, 86400, 86400 + 10, 86400 + 59, 2 * 86400 + 30, 0.5])),
     st.tuples(st.just("reset")),
+    st.tuples(st.just("maint"), st.sampled_from(["clear_cache", "get_statistics", "get_circuit_breaker_stats"])),
 ).map(list)
 
 
@@ -143,6 +145,9 @@ def _judge(case, out, clock, CS):
                 out.fail("reset:not-closed", "reset_circuit_breaker left state=%s failure_count=%d" % (st1.value, fc1), {"step": i})
                 return
             fail_hi = consec = 0
+            continue
+        if op[0] == "maint":
+            getattr(loop, op[1])()              # bookkeeping between requests: the breaker must not depend on it
             continue
         if op[0] != "req":
             raise HarnessError("unknown op %r" % (op,))
